@@ -6,7 +6,7 @@
    the per-class desired routes and the interface view; `kroute_is_ours` is the ownership policy applied to a
    kernel route; `in_grace` is the route-cleanup grace period of a recently seen workload interface. *)
 From Coq Require Import List NArith Bool String Permutation.
-From Verif.C17 Require Import Model Spec Proofs ProofsAttempt ProofsWinner ProofsApply.
+From Verif.C17 Require Import Model Spec Proofs ProofsAttempt ProofsWinner ProofsApply ProofsEvery ProofsSound.
 Import ListNotations.
 Open Scope N_scope.
 
@@ -108,10 +108,43 @@ Theorem c17_any_history_partial : forall cfg p w w',
 Proof. exact full_attempt_converges. Qed.
 Print Assumptions c17_any_history_partial.
 
-(* kernel tables produced by outside-world steps stay finite maps (the NoDup hypothesis above) *)
-Theorem c17_env_stays_a_map : forall o e, NoDup (keys (e_routes e)) -> NoDup (keys (e_routes (env_step o e))).
-Proof. exact env_step_nodup. Qed.
-Print Assumptions c17_env_stays_a_map.
+(* Tracker soundness: through every call, interface event, link change, clock step and every Apply with every failure
+   plan (success or not), what the tracker believes to be in the kernel is in the kernel, as long as nobody else
+   changes the kernel's routes (no EFlush / EAddRoute / EDelRoute). *)
+Theorem c17_tracker_sound : forall cfg ops,
+  forallb quiet ops = true ->
+  Sub cfg (fst (run_st cfg ops (st0, env0))) (snd (run_st cfg ops (st0, env0))).
+Proof. exact tracker_sound. Qed.
+Print Assumptions c17_tracker_sound.
+
+(* Hence: after EVERY Apply that reports success (full resync or per-interface resync, first attempt or inline retry,
+   any failure plan, any such history before it) every desired route is in the kernel exactly.  This is the half of
+   convergence that does not need the full resync; it holds of the pinned code. *)
+Theorem c17_desired_present_after_any_successful_apply : forall cfg ops p s' e',
+  forallb quiet ops = true ->
+  apply cfg p (fst (run_st cfg ops (st0, env0))) (snd (run_st cfg ops (st0, env0))) = (false, s', e') ->
+  forall k d, lookup rkey_eqb (s_desired s') k = Some d -> tbl cfg e' k = Some d.
+Proof. exact desired_present_after_any_successful_apply. Qed.
+Print Assumptions c17_desired_present_after_any_successful_apply.
+
+(* EVERY Apply, whatever its outcome, whatever fails, from any state: routes in other routing tables are untouched. *)
+Theorem c17_other_tables_untouched : forall cfg p s e err s' e', apply cfg p s e = (err, s', e') ->
+  forall kk, fst kk <> c_table cfg -> lookup kkey_eqb (e_routes e') kk = lookup kkey_eqb (e_routes e) kk.
+Proof. exact apply_other_tables_untouched. Qed.
+Print Assumptions c17_other_tables_untouched.
+
+(* the NoDup hypothesis above ("the kernel table is a finite map") holds of every kernel reachable by any history,
+   including all Applies with all failure plans *)
+Theorem c17_reachable_kernel_is_a_map : forall cfg ops, NoDup (keys (e_routes (snd (run_st cfg ops (st0, env0))))).
+Proof. exact reachable_kernel_is_a_map. Qed.
+Print Assumptions c17_reachable_kernel_is_a_map.
+
+(* the specification's own fold of SetRoutes/RouteUpdate/RouteRemove (Spec.D_step, used by the oracle) is literally the
+   model's ifaceToRoutes after every step that is not an Apply (an Apply does not change it either, see recalc) *)
+Theorem c17_spec_desired_is_model_routes : forall cfg o s e,
+  s_routes (fst (fst (step cfg o (s, e)))) = D_step cfg o (s_routes s) \/ (exists p, o = OApply p).
+Proof. exact step_routes. Qed.
+Print Assumptions c17_spec_desired_is_model_routes.
 
 (* ------------------------------------------------------------------------------------------------
    Findings: the full statement is false of the faithful model of the pinned code.
